@@ -21,11 +21,10 @@ def make_zip(n):
     return out + cd + eocd
 
 
-def run(sess):
+def run(sess, configs=None, fam='walker'):
     prog = sess.prog
-    fam = 'walker'
     quick = sess.tier == 'quick'
-    configs = [(4, 1, False), (4, 1, True), (4, 2, True), (4, 2, False)] if quick else [(5, 1, False), (5, 1, True), (5, 2, True), (5, 2, False)]
+    configs = configs or ([(4, 1, False), (4, 1, True), (4, 2, True), (4, 2, False)] if quick else [(5, 1, False), (5, 1, True), (5, 2, True), (5, 2, False)])
     sess.bounds['walker'] = {'nodes': configs[0][0], 'roots': '1 and 2', 'limit': '0..nodes+3', 'zip members': '0..2', 'ordered': 'both'}
     for (M, nroots, ordered) in configs:
         ex = sess.executor(W.models(), unwind=3 * M + 6, maxsteps=400000)
